@@ -38,13 +38,37 @@ ASSUMPTIONS = [
     "the numeric meaning of an operator method is the selector it hands to the "
     "composition hook (found with a probe object), applied to plain numbers; "
     "its name is checked against the method name",
+    "the lifting monitors apply the SAME kernel to the plain values, so they "
+    "are blind to kernel defects by construction (also when both sides raise: "
+    "outcomes are equal when the exception classes are equal); kernels are "
+    "judged only by the law monitors: wrap/fold/clip/wrap2/fold2/clip2 bounds, "
+    "clip idempotence, round/roundup/trunc, mod, the four inverse pairs, and "
+    "the exact fraction reference (round family, wrap, fold, clip, mod, ceil, "
+    "floor on ties and boundaries, int vs float spellings).  Kernels outside "
+    "the statement's law list (pow, div, scaleneg, lin*/exp* maps, moddif, "
+    "bit operations, gcd/lcm, random ranges ...) are not judged; an audit with "
+    "independent references is recorded in "
+    "proposed_fixes/C15-observations-kernels.md",
     "vf/c15_kinds.py reference: streams end with the shortest operand, lists "
-    "wrap around, the left operand decides the outer structure, functions are "
-    "evaluated at the call argument, operands unwrap to their value",
-    "a list receiver combined with a Routine on the right is not generated (the "
-    "channels would share one stateful routine; evaluation order is unspecified)",
+    "wrap around (the empty list gives the empty list), the left operand "
+    "decides the outer structure, functions are evaluated at the call "
+    "argument, operands unwrap to their value",
+    "not generated: a list receiver combined with a Routine on the right (the "
+    "channels would share one stateful routine; evaluation order is "
+    "unspecified); a plain number as receiver of an n-ary operator with "
+    "abstract arguments (no reflected n-ary form exists); empty lists as "
+    "arguments of n-ary operators (sclang's flop pads them, no agreed meaning); "
+    "random kernels with nested operand kinds (draw order unspecified); zero / "
+    "negative moduli, lo >= hi, quantum <= 0 in the laws (outside the "
+    "documented domains); UGen operands (C03)",
+    "re-entrant cases: when several levels of a recursion raise, any of their "
+    "exception classes is accepted (evaluation order of the levels is not "
+    "part of the property)",
+    "stream histories: PausedStream and StopStream count as the same outcome "
+    "of a pull; reset() of a composed stream restarts all its operands",
     "law tolerances: 4 ulp of the largest argument for range laws, 1e-12 "
-    "relative for multiples, 1e-9 relative for inverse pairs (vf/c15_laws.py)"]
+    "relative for multiples, 1e-9 relative for inverse pairs (vf/c15_laws.py); "
+    "the exact laws compare exactly on dyadic arguments"]
 MIN_COUNTERS = {
     'quick': {'lift_method_evaluations': 5000, 'lift_builtin_evaluations': 5000,
               'lift_value_agreements': 6000, 'law_samples': 20000,
@@ -233,7 +257,10 @@ class LiftCase:
         a, nfa = ck.make(self.akind, self.rng, self.x0, self.ints)
         objs, nfs = [], []
         for j, k in enumerate(self.okinds):
-            o, nf = ck.make(k, self.rng, self.x0, self.ints)
+            # an empty list as *argument* of an n-ary operator has no agreed
+            # meaning (sclang's flop pads it); empty receivers / binary operands do
+            o, nf = ck.make(k, self.rng, self.x0, self.ints,
+                            allow_empty=self.hook != 'narop')
             if j in plain:
                 o = nf
             objs.append(o); nfs.append(nf)
@@ -1129,6 +1156,27 @@ def run_meta(spec, acc):
             acc.violation(OPERAND_EQ_KEY, {'case': 0, 'left': repr(a),
                                            'right': repr(b), 'result': repr(r),
                                            'expected': va == vb})
+    # 2c. the empty list as receiver / binary operand (deterministic companion
+    # of the random lifting cases): the result is the empty list
+    from sc3.synth.ugen import ChannelList
+    for key, thunk in (
+            ('C15/lifting/channels/empty-list-operand/multichannel-perform',
+             lambda: ChannelList([]).clip(0, 1)),
+            ('C15/lifting/channels/empty-list-operand/list-binop',
+             lambda: ChannelList([1, [2, 3]]) + ChannelList([])),
+            ('C15/lifting/channels/empty-list-operand/list-binop',
+             lambda: ChannelList([]) * 2),
+            ('C15/lifting/channels/empty-list-operand/list-binop',
+             lambda: ChannelList([1, 2]) + [])):
+        acc.count('meta_checks')
+        acc.count('meta_empty_list_checked')
+        try:
+            r = thunk()
+            bad = None if list(r) == [] else repr(r)
+        except Exception as ex:
+            bad = f'{type(ex).__name__}: {ex}'
+        if bad:
+            acc.violation(key, {'case': 0, 'result': bad, 'expected': '[]'})
     # 3. operator methods hidden by instance attributes of subclasses
     public = {n for n in names if not n.startswith('_')}
 
